@@ -557,14 +557,17 @@ class Machine(object):
         self.fill = None
         idx = len(self.fills)
         self.fills.append(f)
-        miss = self.miss[idx] if idx < len(self.miss) else set()
-        f["missed_by"] = set(miss)
-        f["app"], f["flags"] = app, flags
+        f["app"], f["flags"], f["end_pid"] = app, flags, pid
         complete = (sorted(f["blocks"]) == list(range(f["n"])) and
                     pid == f["pid"])
         f["complete"] = complete
         f["image"] = b"".join(f["blocks"][b][1] for b in sorted(f["blocks"]))
         f["selected"] = select_cores(f["sel"])
+        if getattr(self, "miss_fn", None) is not None:
+            miss = self.miss_fn(f)
+        else:
+            miss = self.miss[idx] if idx < len(self.miss) else set()
+        f["missed_by"] = set(miss)
         if not complete:
             return
         for (xy, c) in f["selected"]:
